@@ -17,7 +17,7 @@ MEMBER_KINDS = [
     "m_bad_varint", "m_bad_header", "m_msg_len_past_end", "m_truncate_raw", "m_garbage_tail",
     "m_unknown_type", "m_no_message_infos", "m_zero_length",
 ]
-CONTAINER_KINDS = ["c_iwph", "c_plist_malformed", "c_plist_missing", "c_build_missing", "c_dir_for_file", "c_empty_dir", "c_not_zip", "c_nested_index_damaged", "c_drop_member", "c_suffix"]
+CONTAINER_KINDS = ["c_iwph", "c_plist_malformed", "c_plist_wrong_type", "c_zip_codec_damaged", "c_plist_missing", "c_build_missing", "c_dir_for_file", "c_empty_dir", "c_not_zip", "c_nested_index_damaged", "c_drop_member", "c_suffix"]
 ALL_KINDS = RAW_KINDS + MEMBER_KINDS + CONTAINER_KINDS
 
 
@@ -287,6 +287,65 @@ def _apply_container(path: str, f: dict) -> str:
         c.members[name] = [b"", b"bplist00", d[: len(d) // 2], b"<?xml version='1.0'?><plist><dict><key>x", bytes(reversed(d))][f["n"] % 5]
         write_container(path, c)
         return f"malformed {name}"
+    if kind == "c_plist_wrong_type":
+        # a well-formed property list whose entries have unexpected types or are absent
+        import datetime as _dt
+        import plistlib
+
+        name = "Metadata/Properties.plist"
+        if name not in c.members:
+            return ""
+        try:
+            props = plistlib.loads(c.members[name])
+        except Exception:  # noqa: BLE001
+            props = {}
+        if not isinstance(props, dict):
+            props = {}
+        odd = [14, 14.1, b"14.1", ["14.1"], {"v": "14.1"}, True, _dt.datetime(2020, 1, 1), "", "14", "abc", "14.1.2.3", " 13.2 "][f["n"] % 12]
+        which = f["a"]
+        if which < 0.7:
+            props["fileFormatVersion"] = odd
+            what = f"fileFormatVersion={odd!r}"
+        elif which < 0.85:
+            props.pop("fileFormatVersion", None)
+            what = "fileFormatVersion absent"
+        else:
+            props = [odd] if f["b"] < 0.5 else odd if not isinstance(odd, (dict,)) else "x"
+            what = f"top-level object {type(props).__name__}"
+        fmt = plistlib.FMT_BINARY if f["b"] < 0.5 else plistlib.FMT_XML
+        c.members[name] = plistlib.dumps(props, fmt=fmt)
+        write_container(path, c)
+        return f"plist types: {what}"
+    if kind == "c_zip_codec_damaged":
+        # one member stored with another codec zipfile can read (bzip2, LZMA, deflate) and its compressed stream damaged
+        names = [n for n in c.zip_order if len(c.members[n]) > 64 and (c.form == "file" or n.startswith("Index/"))]
+        if c.form == "pkgloose" or not names:
+            return ""
+        name = sorted(names)[int(f["member"] * len(names)) % len(names)]
+        method = [zipfile.ZIP_BZIP2, zipfile.ZIP_LZMA, zipfile.ZIP_DEFLATED][f["n"] % 3]
+        write_container(path, c, methods={name: method})
+        target = path if c.form == "file" else os.path.join(path, "Index.zip")
+        if not os.path.isfile(target):
+            return ""
+        with zipfile.ZipFile(target) as z:
+            try:
+                zi = z.getinfo(name)
+            except KeyError:
+                return ""
+            hdr, csize = zi.header_offset, zi.compress_size
+        with _REAL_OPEN(target, "rb") as fh:
+            data = bytearray(fh.read())
+        nlen, xlen = int.from_bytes(data[hdr + 26 : hdr + 28], "little"), int.from_bytes(data[hdr + 28 : hdr + 30], "little")
+        start = hdr + 30 + nlen + xlen
+        if csize < 8:
+            return ""
+        # damage inside the stream (past the codec's own header), keep the zip structure intact
+        pos = start + min(csize - 1, 6 + int(f["a"] * (csize - 7)))
+        for i in range(min(1 + f["n"], start + csize - pos)):
+            data[pos + i] ^= 0xA5
+        with _REAL_OPEN(target, "wb") as fh:
+            fh.write(bytes(data))
+        return f"{name} recompressed with method {method} and damaged at +{pos - start}/{csize}"
     if kind in ("c_plist_missing", "c_build_missing", "c_drop_member"):
         if kind == "c_plist_missing":
             name = "Metadata/Properties.plist"
